@@ -36,6 +36,7 @@ def _unflatten(flat, shape):
 
 class SymArray:
     __array_priority__ = 1000
+    __array_ufunc__ = None
 
     def __init__(self, flat, shape):
         self.f = list(flat)
